@@ -91,6 +91,11 @@ Proof.
   intros P H. unfold submit. destruct q; (eapply ei_same; [apply ei_emit; [exact H | apply P] | reflexivity]).
 Qed.
 
+Lemma ei_submit1 s0 s q ci : pb (ESub q (ci_uid ci) (ci_call ci)) = true -> evs_in s0 s -> evs_in s0 (submit s q ci).
+Proof.
+  intros P H. unfold submit. destruct q; (eapply ei_same; [apply ei_emit; [exact H | exact P] | reflexivity]).
+Qed.
+
 Lemma ei_timer_add s0 s k v t ci :
   (forall u c, pb (ESub QTimer u c) = true) -> (forall k v u, pb (ETimerVar k v u) = true) ->
   evs_in s0 s -> evs_in s0 (timer_add s k v t ci).
